@@ -348,7 +348,10 @@ def execute(h):
             tab = {(gunits[int(key[0])], gunits[int(key[1])]):
                    (_frac(e[1]), _frac(e[2]))
                    for key, e in sorted(spec['table'].items())}
-            gconvs.append(TableConverter(tab))
+            # the table as mapping, or as list of 4-tuples
+            gconvs.append(TableConverter(
+                tab if k % 2 else [(u1, u2, f, o)
+                                   for (u1, u2), (f, o) in tab.items()]))
         elif spec['kind'] == 'method':
             gconvs.append(_Method(Stub(k, spec['table'])))
         elif spec['kind'] == 'unhashable':
